@@ -82,10 +82,10 @@ Proof.
 Qed.
 Print Assumptions C07_reject.
 (* proved without any hypothesis on C: add, connect, disconnect, remove, set_output (the registry is untouched as well) *)
-Theorem C07_reject_partial : ∀ C o e, basic_op o = true → (step C o).2 = Fail e →
+Theorem C07_reject_basic : ∀ C o e, basic_op o = true → (step C o).2 = Fail e →
   edges (c_g (step C o).1) = edges (c_g C) ∧ c_bbs (step C o).1 = c_bbs C ∧ e = reject_exn o.
 Proof. exact step_reject_basic. Qed.
-Print Assumptions C07_reject_partial.
+Print Assumptions C07_reject_basic.
 (* a rejected add_blackbox leaves the circuit -- graph and registry -- exactly as it was *)
 Theorem C07_reject_add_blackbox : ∀ C d inst ins outs conns e, Inv C → list_to_set ins = bb_in d → list_to_set outs = bb_out d →
   (step C (OAddBlackbox d inst ins outs conns)).2 = Fail e → e = ValueError ∧ (step C (OAddBlackbox d inst ins outs conns)).1 = C.
@@ -117,12 +117,20 @@ Proof. exact uid_fresh. Qed.
 Print Assumptions C07_uid_fresh.
 
 (* ---------------------------------------------------------------- blackbox pins *)
-(* R = names the caller passed to remove() so far.  NOT proved for add_blackbox, add_subcircuit, fill_blackbox
-   (conjectured for instance and pin names without dots). *)
+(* R = names the caller passed to remove() so far.  NOT proved for fill_blackbox (the new registry entries are the
+   filling circuit's instances under the prefix; decided per history by the oracle). *)
 Definition C07_pins_full : Prop := ∀ C o R, args_ok o → Inv C → pins_ok C R → pins_ok (step C o).1 (R ∪ removed_by o).
-Theorem C07_pins_partial : ∀ C o R, basic_op o = true → pins_ok C R → pins_ok (step C o).1 (R ∪ removed_by o).
-Proof. exact step_pins_basic. Qed.
+(* proved: every operation except fill_blackbox, arbitrary arguments, succeeding or raising *)
+Theorem C07_pins_partial : ∀ C o R, not_fill o = true → args_ok o → Inv C → pins_ok C R → pins_ok (step C o).1 (R ∪ removed_by o).
+Proof.
+  intros C o R Hnf Ha [Hc _] Hp. apply step_pins_nofill; try done; [by apply closed'_iff| |]; destruct o; try exact I; try exact Ha.
+  by destruct Ha.
+Qed.
 Print Assumptions C07_pins_partial.
+(* the five basic operations need no hypothesis at all *)
+Theorem C07_pins_basic : ∀ C o R, basic_op o = true → pins_ok C R → pins_ok (step C o).1 (R ∪ removed_by o).
+Proof. exact step_pins_basic. Qed.
+Print Assumptions C07_pins_basic.
 
 (* ---------------------------------------------------------------- non-vacuity *)
 Definition ex_sub : Circuit :=
